@@ -799,6 +799,22 @@ func vhnlRun(sc vhnlScenario) (obs vhnlObs) {
 	}
 	obs.LossMs = time.Since(start).Milliseconds()
 	lost.down = true
+	// every "eventually" below shares one budget that starts at the loss
+	deadline := start.Add(bound)
+	remain := func() time.Duration {
+		if d := time.Until(deadline); d > 2*time.Second {
+			return d
+		}
+		return 2 * time.Second
+	}
+	gaveUp := func() bool {
+		for _, l := range listeners {
+			if r, _ := l.result(); r != "" {
+				return true
+			}
+		}
+		return false
+	}
 	// the instant the loss call returned
 	for i, s := range survivors {
 		obs.Survivors[i].Instant = s.statusOf(lost.id)
@@ -821,7 +837,7 @@ func vhnlRun(sc vhnlScenario) (obs vhnlObs) {
 	obs.Leaver.GossipOpen = vhnlDialable(lost.gossipAddr())
 
 	// ---- survivors stop routing to it (graceful: every survivor ends up with "left", directly or through gossip)
-	vhnlUntil(bound, func() bool {
+	vhnlUntil(remain(), func() bool {
 		for _, s := range survivors {
 			st := s.statusOf(lost.id)
 			if st == "active" || (sc.Mode == "graceful" && st != "left") {
@@ -832,7 +848,10 @@ func vhnlRun(sc vhnlScenario) (obs vhnlObs) {
 	})
 
 	// ---- listeners re-register on survivors
-	if vhnlUntil(bound, func() bool {
+	if vhnlUntil(remain(), func() bool {
+		if gaveUp() {
+			return true // a listener whose Accept returned never registers again: no point in waiting
+		}
 		for ep, want := range total {
 			got := 0
 			for _, s := range survivors {
@@ -843,7 +862,7 @@ func vhnlRun(sc vhnlScenario) (obs vhnlObs) {
 			}
 		}
 		return true
-	}) {
+	}) && !gaveUp() {
 		obs.ReregMs = time.Since(t0).Milliseconds()
 	}
 	close(stopInflight)
@@ -852,7 +871,7 @@ func vhnlRun(sc vhnlScenario) (obs vhnlObs) {
 	for _, s := range survivors {
 		for _, e := range sc.Endpoints {
 			rec := vhnlRecovery{Node: s.id, Ep: e.ID, OkMs: -1}
-			vhnlUntil(bound, func() bool {
+			vhnlUntil(remain(), func() bool {
 				rec.Tries++
 				q := rq.do("recovery", s, e.ID, false)
 				if vhnlGood(q) {
